@@ -21,5 +21,23 @@ Proof. exact run_pydantic_is_one_context. Qed.
 Theorem C14_field_validation_is_assert_one : forall c n a x,
   validate_field c n a x = assert_one c {| c_idx := 0; c_name := n; c_tensor := x; c_annot := a |}.
 Proof. exact validate_field_is_assert_one. Qed.
+(* non-vacuity: concrete wrappers, arguments and values that meet the hypotheses above *)
+Definition ty0 : ttype := {| t_shape := []; t_mindex := None; t_mname := None; t_anon := false; t_lits := [] |}.
+Definition annA (s:string) (o:bool) : annot :=
+  {| a_ty := match parse_shape s with Ok ty => ty | Err _ => ty0 end; a_dtypes := []; a_opt := o |}.
+Definition tenE (l:list Z) : tensor := {| x_lib := LNumpy; x_dt := KF32; x_shape := l |}.
+Definition arrE (l:list Z) : value := VArr (tenE l).
+Definition ps14 : rhints := [("x", (false, [Some (annA "a b" false)])); ("y", (false, [Some (annA "b" true)]))].
+Definition vals14 : list (string*value) := [("y", arrE [5]%Z); ("x", arrE [2;3]%Z)].
+Example ex14_three_forms_one_report :
+  run_construct ps14 vals14 = DRej (EShape "y" 0 3 5) /\
+  arg_phase {| w_params := ps14; w_ret := None; w_provider := PNone |} (PSOk []) vals14 = DRej (EShape "y" 0 3 5) /\
+  run_pydantic [("x", annA "a b" false); ("y", annA "b" true)] vals14 = DRej (EShape "y" 0 3 5).
+Proof. vm_compute. repeat split. Qed.
+Example ex14_hypotheses_met :
+  Forall (fun p => ((fst p =? "self") || (fst p =? "cls"))%string = false) ps14 /\ Forall (fun p => snd (snd p) <> []) ps14 /\
+  field_queue [("x", annA "a b" false); ("y", annA "b" true)] [("y", VNone); ("x", arrE [2;3]%Z)]
+   = Some [{| c_idx := 0; c_name := "x"; c_tensor := tenE [2;3]%Z; c_annot := annA "a b" false |}].
+Proof. repeat split; repeat constructor; discriminate. Qed.
 Redirect "C14.assumptions.1" Print Assumptions C14_pydantic_is_one_context.
 Redirect "C14.assumptions.2" Print Assumptions C14_class_forms_queue_like_functions.
